@@ -112,23 +112,38 @@ RULE = {
     "quick": "4 declarations (AutoLength over Data sized by the described field; the same with the described Int(2) inside "
              "a vectorised run pad/length/kind; AutoLength over a repeated Int; general Auto) x 3 code-generation option sets "
              "x 8-9 starts (C(), C(described=k consistent / inconsistent), C(tracked=v), C(described=k, tracked=v) consistent / "
-             "inconsistent, unpack(raw) x2-3) x EVERY operation sequence of length 1..4 over 7 operations (pure mode, full "
+             "inconsistent, unpack(raw) x2-3) x EVERY operation sequence of length 1..4 (1..3 for the option set vectorize=False; "
+             "rebalanced to make room for Parts 5-8) over 7 operations (pure mode, full "
              "observation after the last operation) + every sequence of length 3 with the full observation after every "
-             "operation (observed mode); Part 2: every sequence of length 1..3 over 14 operations on two live packets x 3 start "
-             "pairs x 12 classes; Part 3 (nested): 12 inner classes x outer option sets {generic, default} x {Ref(Inner): every "
+             "operation (observed mode); Part 2: every sequence of length 1..3 (1..2 for vectorize=False) over 14 operations on "
+             "two live packets x 3 start pairs x 12 classes; Part 3 (nested; instance prototypes with generic and default inner "
+             "classes only in this tier): 12 inner classes x outer option sets {generic, default} x {Ref(Inner): every "
              "sequence of length 1..3 over 7 operations, Ref(Inner).repeated(n) with two inners: every sequence of length 1..2 "
              "over 13 operations} x 3 starts (default/ctor, ctor with explicit inner, outer unpack), PK packs the outer packet; "
              "the same two outer shapes with an INSTANCE prototype (described keyword consistent / inconsistent / tracked keyword "
              "only) x 2 starts (default-constructed or constructed outer, unpacked outer), same lengths; "
              "Part 4 (positioned described field): 4 declarations (.at(2), .shift(1), .aligned(4), class align 2) x 3 option sets x "
              "all 8-9 starts x every sequence of length 1..3 (pure) and of length 2 (observed) over the 7 operations. "
-             "Exhaustive for these bounds. A history is non-trivial when start+operations contain at least "
+             "Part 5 (new layouts, same short bound 1..3 pure / 2 observed, all 8-9 starts, 3 option sets): 4 embedded declarations "
+             "Outer{[tag]; Ref(Body, embed=True); [tail]} with Body = AutoLength over Data / inside a vectorised run / over a "
+             "repeated Int / over an optional Data, all operations on the outer packet; optional tracked field Data(length).when(has); "
+             "Auto(func) whose func reads the described attribute of another packet of the class (slot prev); two-packet histories "
+             "for optional, chained and one embedded declaration (length 1..2; chained 1..3, packet 1 has prev = packet 0). "
+             "Failing computed reads (operation TN = tracked := None): Part 6 every sequence of length 1..3 over 8 operations that "
+             "contains TN x 5 starts x 30 classes (all but the positioned ones); Part 7 two live packets, every sequence of length "
+             "1..2 over 16 operations containing TN x 3 start pairs x 21 classes + 100 seeded samples (VERIF_SEED) of length 3..5 "
+             "per class and start pair; Part 8 nested Ref(Inner) (length 1..3 over 8 operations) and Ref(Inner).repeated(n) with two "
+             "inners (length 1..2 over 15 operations), sequences containing TN, 12 inner classes x 2 outer option sets x 3 starts. "
+             "Exhaustive for these bounds (the seeded samples of Part 7 are an addition beyond them). A history is non-trivial when start+operations contain at least "
              "one assignment/deletion/keyword/unpack affecting the described or tracked field (i.e. not only reads and packs of "
              "a plain C()); distinct = distinct (class, start, mode, operation sequence).",
     "thorough": "as quick with every operation sequence of length 1..6 (pure) and of length 5 (observed), sharded by "
                 "(class, start, mode, first operation); Part 2 with sequences of length 1..4; Part 3 with sequences of length 1..4 for both outer shapes (instance-prototype outers: Ref 1..4, repeated Ref 1..3); "
-                "Part 4 with sequences of length 1..5 (pure) and 4 (observed). "
-                "Exhaustive for these bounds. "
+                "Part 4 with sequences of length 1..5 (pure) and 4 (observed); no option set is shortened in this tier. "
+                "Part 5 layouts with length 1..5 (pure) / 4 (observed), two-packet histories 1..4; Part 6 length 1..4 and all "
+                "starts; Part 7 length 1..3 + 480 seeded samples of length 4..6 per class and start pair; Part 8 Ref 1..4, "
+                "repeated Ref 1..3. "
+                "Exhaustive for these bounds (the seeded samples of Part 7 are an addition beyond them). "
                 "Non-trivial as in quick; distinct = distinct (class, start, mode, first<=4 operations (<=3 in Part 2)) groups (the exact number "
                 "of executed histories is in counters histories_pure / histories_observed / two_packet_histories).",
 }
@@ -148,6 +163,18 @@ ASSUMPTIONS = [
     "(constructor keyword); sub-packets produced by unpack were never assigned and start automatic",
     "positioned variants: gaps are filled with b'.' on pack; at(2) is absolute from the start of the data, shift(1) skips one byte, "
     "aligned(n)/class align pad to the next multiple of n counted from the start of the data (packets are packed/unpacked at offset 0)",
+    "embedded layout: Ref(Body, embed=True) lends Body's fields (described one included) to the outer packet, whose own attributes, "
+    "constructor keywords, unpack and pack then follow the statement like fields written in the class body; the bytes are the outer "
+    "fields in order with Body's fields in place of the Ref; the object outer.body is never read or written (the docs call embed "
+    "experimental and its prototype values are documented as ignored)",
+    "while the tracked field is None the computed value does not exist: a read of a not explicitly assigned described attribute and "
+    "a pack() of such a packet are not judged (any exception or result accepted and counted); they must not change any state: the "
+    "other live packets, an explicitly assigned value, and the same packet once the tracked field is assigned again are judged in full",
+    "an optional field (.when) that is None packs as nothing (documented: None is the value of an absent optional field), so a packet "
+    "with an explicitly assigned described field and an absent optional tracked field is judged on pack(); for a non-optional "
+    "tracked field holding None no pack() is judged",
+    "chained variant: the extra slot prev is harness state (additional_slots); total of packet 1 = (len(value) + total of packet 0 as "
+    "it currently reads) & 0xff; the second described field n of that class is never assigned and must pack as len(value)",
 ]
 
 HEADER = ("from bisturi.packet import Packet\n"
@@ -400,6 +427,9 @@ class Ctx:
         self.chained = bool(variant.get("chained"))
         self.none_ok = bool(variant.get("none_packs_empty"))   # None is a regular value of the tracked field (packs as nothing)
         self.group = variant.get("group")
+        # last history on this class in which a computed read raised: class-level state leaking out of it would show up
+        # in a LATER history, whose witness then names this one as its prefix
+        self.last_failed = None
 
     def encode(self, visible, tracked, others):
         out = b""
@@ -491,6 +521,7 @@ def execute(ctx, starts, ops, mode, st, states=None):
             if not failed[i]:
                 failed[i] = True
                 nfailed[0] += 1
+                ctx.last_failed = (starts, ops, mode)
         else:
             st.add("computed_reads_in_failing_state_returned_not_judged")
 
@@ -692,6 +723,11 @@ def _witness(ctx, starts, ops, mode, detail):
          "described": ctx.dname, "tracked": ctx.tname}
     if ctx.chained:
         w["note"] = "packet i has its extra slot prev = packet i-1 (None for packet 0), set by the harness right after the start"
+    lf = ctx.last_failed
+    if lf is not None and (lf[0], tuple(lf[1]), lf[2]) != (starts, tuple(ops), mode):
+        w["preceding_history_with_failed_computed_read_on_same_class"] = {
+            "starts": lf[0], "ops": [list(o) for o in lf[1]], "mode": lf[2],
+            "note": "executed earlier in this process on other packets of the same class; replay runs it first"}
     w.update(detail)
     return w
 
@@ -943,7 +979,9 @@ def execute_nested(nctx, start, ops, st):
             getattr(p, dname)
         except Exception:
             st.add("nested_computed_reads_failed")
-            failed[i] = True
+            if not failed[i]:
+                failed[i] = True
+                ictx.last_failed = (nctx, start, ops)
         else:
             st.add("nested_computed_reads_in_failing_state_returned_not_judged")
 
@@ -1124,6 +1162,13 @@ def _nested_witness(nctx, start, ops, detail):
          "op_values": {"T0": ictx.tv[0], "T1": ictx.tv[1], "D0": ictx.kv[0], "D1": ictx.kv[1], "TN": None},
          "described": ictx.dname, "tracked": ictx.tname,
          "note": "ops [i, OP] act on inner packet i; [-1, 'PK'] packs the OUTER packet; the closing observation packs the outer"}
+    lf = ictx.last_failed
+    if lf is not None and not (lf[0] is nctx and lf[1] == start and tuple(lf[2]) == tuple(ops)):
+        w["preceding_history_with_failed_computed_read_on_same_class"] = {
+            "outer_class": lf[0].ocls.__name__, "outer_kind": lf[0].kind, "outer_options": lf[0].ooptname,
+            "ref_prototype": lf[0].proto, "ref_prototype_keywords": lf[0].proto_kw,
+            "start": lf[1], "ops": [list(o) for o in lf[2]],
+            "note": "executed earlier in this process on other inner packets of the same class; replay runs it first"}
     w.update(detail)
     return w
 
@@ -1163,7 +1208,7 @@ def run(run):
     L3 = {"ref": 3 if quick else 4, "seq": 2 if quick else 4}     # nested part, Ref(Inner)
     L3I = {"ref": 3 if quick else 4, "seq": 2 if quick else 3}    # nested part, Ref(Inner(...)) instance prototypes
     LP = 3 if quick else 5            # short bound (positioned / embedded / optional / chained): pure 1..LP, observed LP-1
-    LF = 3 if quick else 5            # Part 6: single-packet histories containing TN
+    LF = 3 if quick else 4            # Part 6: single-packet histories containing TN
     LF2 = 2 if quick else 3           # Part 7: two-packet histories containing TN, exhaustive bound
     NF2 = 100 if quick else 480       # Part 7: seeded samples per (class, start pair), lengths LF2+1 .. LF2+3
     LF3 = {"ref": 3 if quick else 4, "seq": 2 if quick else 3}    # Part 8: nested histories containing TN
@@ -1439,6 +1484,11 @@ def replay(run, rec):
                              w.get("ref_prototype", "class"), w.get("ref_prototype_keywords"))
             ops = tuple((int(i), str(op)) for i, op in w["ops"])
             st = Stats()
+            pre = w.get("preceding_history_with_failed_computed_read_on_same_class")
+            if pre:
+                pctx = NestedCtx(ictx, getattr(module, pre["outer_class"]), pre["outer_kind"], pre["outer_options"],
+                                 w["declaration"], pre.get("ref_prototype", "class"), pre.get("ref_prototype_keywords"))
+                execute_nested(pctx, pre["start"], tuple((int(i), str(op)) for i, op in pre["ops"]), Stats())
             run.case(key="replay", nontrivial=True)
             bad = execute_nested(nctx, w["start"], ops, st)
             st.flush(run)
@@ -1452,6 +1502,10 @@ def replay(run, rec):
         ctx = Ctx(cls, variant, w["options"], w["declaration"])
         ops = tuple((int(i), str(op)) for i, op in w["ops"])
         st = Stats()
+        pre = w.get("preceding_history_with_failed_computed_read_on_same_class")
+        if pre:
+            execute(ctx, pre["starts"], tuple((int(i), str(op)) for i, op in pre["ops"]), pre["mode"], Stats())
+            ctx.last_failed = None
         run.case(key="replay", nontrivial=True)
         bad = execute(ctx, w["starts"], ops, w["mode"], st)
         st.flush(run)
